@@ -34,6 +34,8 @@ def oracle(c, out):
         return None
     if out.startswith("panic"):
         return ("parser-panic", out[:300])
+    if out.startswith("overread"):
+        return ("reads-beyond-declared-length", "the answer depends on octets after the length declared in the header: " + out[:400])
     return None
 
 
@@ -80,6 +82,11 @@ def run(ctx):
             for v in (0, 255):
                 if b[k] != v:
                     cases.append({"op": "fuzz", "ap": ap, "as2": False, "bytes": b[:k] + bytes([v]) + b[k + 1:]})
+    # a well-formed message followed by foreign octets (the next message of a stream, a stray octet, something that reads as an NLRI)
+    KEEPALIVE = bytes([255] * 16 + [0, 19, 4])
+    for ap, b in seeds[:ctx.scale(400, 5000)]:
+        for t in (b"\x00", b"\x18\x0a\x00\x00", KEEPALIVE, b"\xff" * 5):
+            cases.append({"op": "dec", "ap": ap, "bytes": b + t})
     nmut = ctx.scale(20000, 600000)
     for _ in range(nmut):
         ap, b = rng.choice(seeds + [(False, x) for x in rich] * 20) if seeds else (False, b"")
